@@ -170,8 +170,9 @@ def error_payload(rep, F):
         ps = {p["id"]: p["name"] for p in (b.get("params") or []) if p.get("k") == "bind"}
         lets = {}
         for n in walk(b["body"]):
-            if n.get("k") == "let" and n["pat"].get("k") == "bind":
-                lets[n["pat"]["id"]] = (n["pat"]["name"], n.get("init"))
+            if n.get("k") == "let" and n.get("pat") is not None:
+                for q in walk_binds(n["pat"]):
+                    lets[q["id"]] = (q["name"], n.get("init"))
             if n.get("k") == "letx":
                 for q in walk_binds(n["pat"]):
                     lets[q["id"]] = (q["name"], n["init"])
